@@ -196,3 +196,130 @@ where
     runner::count(&format!("wrap.preset_k.{:02}", cfg.k), 1);
     analyze::<V, S>(p, &desc, &sh, all_ok, init_ids, addr_of, nt, nc, cfg.mode, cfg.record, viol_before, trace_hash, steps)
 }
+
+/// Directed "full cycle" scenario (second-round seed C13y): after a wrap "all other guarantees
+/// continue to hold", in particular a writer that is still holding a replacement prepared for
+/// generation X of a reader must not get it accepted when that reader reaches X again one whole
+/// cycle of its counter later. Scripted TOKEN schedule on the fallback-only strategy, three threads,
+/// one container:
+///
+///   R: preset so that the wrap falls on its (k+1)-th load; load L1 publishes X, stops before
+///      reading the storage;
+///   W: store(v1): exchanged, walking, inside help() for R's X, parked at `park` (before its
+///      hand-over CAS) – and stays inside R's node;
+///   R: finishes L1 and performs k+1 more loads: the counter wraps;
+///   W2: store(v2) completes;
+///   R: counter preset *forward* to X-4 (stands for the usize::MAX/4 - k loads nobody can wait for:
+///      within one cycle every value is reachable by loads alone, so this is a reachable state),
+///      load L_last publishes X again, stops before reading the storage;
+///   W: resumes; R: finishes L_last, which must return v2 (history checker).
+pub fn run_full_cycle<V: Val, S: StratExt<V>>(p: &Profile, exec_no: u64, k: u64, park: u16) -> ExecOut
+where
+    Guard<V, S>: Send,
+{
+    use arc_swap::verif::Site;
+    let nt = 3;
+    let viol_before = crate::viol::count();
+    let v0 = V::fresh(id_block() + 1);
+    let init_ids = vec![v0.vid()];
+    let mut addr_of: HashMap<u64, u64> = HashMap::new();
+    addr_of.insert(v0.vid(), v0.addr() as u64);
+    let conts: Vec<Cont<V, S>> = vec![Arc::new(ArcSwapAny::<V, S>::new(v0))];
+    let sh = Arc::new(Shared::<V, S> {
+        clock: AtomicU64::new(1),
+        mailbox: Mutex::new(Vec::new()),
+        b1: HBarrier::new(nt),
+        b2: HBarrier::new(nt),
+        results: Mutex::new(Vec::new()),
+        fin: Mutex::new(Vec::new()),
+        q1_done: AtomicBool::new(false),
+        stop: AtomicBool::new(false),
+        profile: {
+            let mut p2 = p.clone();
+            p2.none_p = 0;
+            p2
+        },
+        exec_no,
+        step_budget: 100_000,
+    });
+    sched::token_prepare(nt, exec_no, Strat::Script, false);
+    let mut script = vec![(0usize, hs::OP_GAP), (0, Site::FALLBACK_LOAD as u16), (1, park)];
+    for _ in 0..(k + 2) {
+        script.push((0, hs::OP_GAP)); // L1 finishes, k+1 further loads
+    }
+    script.push((2, hs::OP_GAP)); // W2: a whole store
+    script.push((0, Site::FALLBACK_LOAD as u16)); // L_last: X published again
+    script.push((1, hs::OP_GAP)); // W: the rest of its store
+    script.push((0, hs::OP_GAP)); // L_last finishes
+    sched::set_script(script);
+    let desc = json!({"workload": "wrap/full-cycle", "value": V::NAME, "strategy": S::NAME, "exec_no": exec_no, "wrap_on_slow_load": k + 1,
+        "writer_parked_at": sched::site_name(park)});
+    runner::set_current(desc.clone());
+    let same_gen = Arc::new(AtomicBool::new(false));
+    let mut handles = Vec::new();
+    for t in 0..nt {
+        let conts2: Vec<Cont<V, S>> = conts.to_vec();
+        let sh2 = sh.clone();
+        let same_gen = same_gen.clone();
+        handles.push(spawn_worker(t, 3000 + t as u64, move || {
+            let mut w = Worker::<V, S> {
+                t,
+                rng: Rng::new(91 + t as u64),
+                conts: conts2,
+                sh: sh2.clone(),
+                guards: Vec::new(),
+                owned: Vec::new(),
+                seen_addrs: Vec::new(),
+                next_id: id_block(),
+                res: RefCell::new(WorkerResult { t, ..Default::default() }),
+                last_path: std::cell::Cell::new(0),
+                budgets: std::cell::Cell::new((100_000, 100_000)),
+                last_steps: std::cell::Cell::new(0),
+                caches: Vec::new(),
+                pending: RefCell::new(None),
+            };
+            if t == 0 {
+                // claim a node first, then preset
+                w.do_op(W::LoadDrop);
+                let ok = arc_swap::verif::set_thread_generation(preset_for(k));
+                assert!(ok, "harness: cannot preset the generation");
+                sched::step(hs::OP_GAP);
+                w.do_op(W::LoadDrop); // L1
+                let x = arc_swap::verif::thread_generation().expect("harness: generation");
+                sched::step(hs::OP_GAP);
+                for _ in 0..(k + 1) {
+                    w.do_op(W::LoadDrop);
+                    sched::step(hs::OP_GAP);
+                }
+                let now = arc_swap::verif::thread_generation().expect("harness: generation");
+                if now < x.wrapping_sub(4) {
+                    // forward only, never across the wrap
+                    arc_swap::verif::set_thread_generation(x.wrapping_sub(4));
+                    w.do_op(W::LoadDrop); // L_last
+                    same_gen.store(arc_swap::verif::thread_generation() == Some(x), SeqCst);
+                }
+                sched::step(hs::OP_GAP);
+            } else {
+                w.do_op(W::Store);
+                sched::step(hs::OP_GAP);
+            }
+            end_phase(w, &sh2);
+        }));
+    }
+    drop(conts);
+    sched::token_start();
+    let mut all_ok = true;
+    for h in handles {
+        if !matches!(h.join(), Ok(true)) {
+            all_ok = false;
+        }
+    }
+    if sched::script_completed() && same_gen.load(SeqCst) {
+        runner::count("wrap.full_cycle.script_completed", 1);
+    } else {
+        runner::count("wrap.full_cycle.script_not_completed", 1);
+    }
+    let inn = unsafe { sched::inner() };
+    let (trace_hash, steps) = (inn.trace_hash, inn.nsteps);
+    analyze::<V, S>(p, &desc, &sh, all_ok, init_ids, addr_of, nt, 1, Mode::Token, false, viol_before, trace_hash, steps)
+}
